@@ -88,6 +88,7 @@ fn generate_churn(seed: u64, g: &GenCtx, rng: &mut Rng) -> Scenario {
             shrink_at: vec![],
             crash: None,
             keep: false,
+            walk: 0,
         })
     };
     let long_lived: Vec<Op> = (0..10).map(|k| plain(k % 4)).collect();
@@ -237,7 +238,8 @@ pub fn generate(seed: u64, g: &GenCtx) -> Scenario {
                 };
                 let keep = rng.chance(1, 2);
                 has_local |= keep && crash.is_none();
-                Op::Lex(LexOp { src, placement, knobs, shrink_at, crash, keep })
+                let walk = if rng.chance(1, 3) { rng.below(4) as u8 } else { 0 };
+                Op::Lex(LexOp { src, placement, knobs, shrink_at, crash, keep, walk })
             } else if roll < 72 && f_share && has_local {
                 has_local = false;
                 Op::Share { slot: rng.below(SHARED_SLOTS as u64) as u8 }
@@ -264,6 +266,7 @@ pub fn generate(seed: u64, g: &GenCtx) -> Scenario {
                     shrink_at: vec![],
                     crash: None,
                     keep: true,
+                    walk: 0,
                 })
             };
             if let Op::Lex(l) = &op {
@@ -401,6 +404,7 @@ fn op_to_json(op: &Op) -> Json {
                 }),
             );
             o.set("keep", Json::Bool(l.keep));
+            o.set("walk", Json::u(u64::from(l.walk)));
         }
         Op::Share { slot } => {
             o.set("op", Json::s("share"));
@@ -517,6 +521,7 @@ pub fn scenario_from_json(j: &Json) -> Result<Scenario, String> {
                         shrink_at,
                         crash,
                         keep: o.get("keep").and_then(Json::as_bool).unwrap_or(false),
+                        walk: o.get("walk").and_then(Json::as_u64).unwrap_or(0) as u8,
                     })
                 }
                 "share" => Op::Share { slot },
